@@ -50,7 +50,10 @@ impl VerificationThread {
         transaction.generate(&public_key, 0, 0);
 
         // TODO : should we skip validation against utxo if we don't have the full utxo ?
-        if !transaction.validate(&blockchain.utxoset, &blockchain, true) {
+        // (a transaction of a type only blocks generate is exempt from the sender checks: never accepted loose)
+        if transaction.is_block_generated_type()
+            || !transaction.validate(&blockchain.utxoset, &blockchain, true)
+        {
             debug!(
                 "transaction : {:?} not valid",
                 transaction.signature.to_hex()
@@ -83,7 +86,9 @@ impl VerificationThread {
                 .filter_map(|mut transaction| {
                     transaction.generate(&public_key, 0, 0);
 
-                    if !transaction.validate(&blockchain.utxoset, &blockchain, true) {
+                    if transaction.is_block_generated_type()
+                        || !transaction.validate(&blockchain.utxoset, &blockchain, true)
+                    {
                         debug!(
                             "transaction : {:?} not valid",
                             transaction.signature.to_hex()
